@@ -392,7 +392,7 @@ def run_case(shape, api, items, n=0, do_save=True, do_print=False):
         parser = build(shape, late)
         env, arg = concretise(shape, api, items, n, write=True)
         if late:
-            os.environ.update(env)
+            os.environ.update(env or {})
             try:
                 parser.parse_args(arg) if api == "args" else parser.parse_object(arg) if api == "object" else parser.parse_string(json.dumps(arg))
             except BaseException:
@@ -649,12 +649,14 @@ def main(argv):
         # ---------------------------------------------------------------- REPLAY
         obs = []  # (case, observation, origin)
         n_same = n_dev = n_print = 0
+        fatal = None
         chunks = [(cases[i:i + 250], i) for i in range(0, len(cases), 250)]
         for res in pool.imap_unordered(_case_chunk, chunks):
             for idx, same, ob in res:
                 c = cases[idx]
-                if "gamma_error" in ob:
-                    machinery_failure(PID, f"gamma could not run case {json.dumps(c)[:500]}: {ob['gamma_error']}")
+                if "gamma_error" in ob:  # (reported after the pool has been drained: leaving the loop early can block the pool)
+                    fatal = fatal or f"gamma could not run case {json.dumps(c)[:500]}: {ob['gamma_error']}"
+                    continue
                 if ob.get("to_trace"):
                     n_same += 1 if same else 0
                     n_print += 1
@@ -667,6 +669,8 @@ def main(argv):
                     n_same += 1
                 else:
                     obs.append((c, ob, "model"))
+        if fatal:
+            machinery_failure(PID, fatal)
         for c in cases:
             if c["items"]:
                 rep.note_nontrivial(json.dumps([c["shape"], c["api"], c["items"]], sort_keys=True))
@@ -696,7 +700,7 @@ def main(argv):
         rres.sort(key=lambda x: x[0])
         for _i, c, ob in rres:
             if "gamma_error" in ob:
-                machinery_failure(PID, f"gamma could not run random case {json.dumps(c)[:500]}: {ob['gamma_error']}")
+                machinery_failure(PID, f"gamma could not run random case {json.dumps(c)[:500]}: {ob['gamma_error']}")  # (the pool is idle here)
             obs.append((c, ob, "random"))
             if c["items"]:
                 rep.note_nontrivial("R" + json.dumps(c, sort_keys=True))
